@@ -223,7 +223,8 @@ def mkItem' (p : Parser) (f : Fields) : RItem :=
   | .curves => ⟨f.name, stripBrackets f.unit, f.value, f.descr⟩
   | .params => ⟨f.name, stripBrackets f.unit, f.value, f.descr⟩
   | .metadata =>
-    let order := (p.orders.lookup f.name).getD p.defaultOrder
+    -- `self.orders.get(name, self.orders.get(name.upper(), self.default_order))`
+    let order := (p.orders.lookup f.name).getD ((p.orders.lookup (upper f.name)).getD p.defaultOrder)
     if order == valueDescr then ⟨f.name, stripBrackets f.unit, f.value, f.descr⟩
     else if order == descrValue then ⟨f.name, stripBrackets f.unit, f.descr, f.value⟩
     else ⟨f.name, stripBrackets f.unit, [], []⟩
@@ -280,11 +281,11 @@ def parseItemsSection (o : ReadOpts) (ver : VerVal) (secLines : List Str) (first
 
 /-! ## the ~Other loop (las.py:319-337) -/
 
-/-- `for line in file_obj:` starting AT the title line; note the un-stripped `line.startswith("~")` -/
+/-- `for line in file_obj:` starting AT the title line; title lines are recognised by `line.strip().startswith("~")` -/
 def otherLoop (last : Nat) : List Str → Nat → List Str
   | [], _ => []
   | line :: rest, lineNo =>
-    if startsTilde line then (if lineNo == last then [] else otherLoop last rest lineNo)
+    if startsTilde (strip line) then (if lineNo == last then [] else otherLoop last rest lineNo)
     else lineStrip line :: (if lineNo + 1 == last then [] else otherLoop last rest (lineNo + 1))
 
 def readOther (secLines : List Str) (first last : Nat) : Str :=
